@@ -153,9 +153,8 @@ class FloatValidatorBase(FieldValidator[_P, float], Generic[_P, _C], metaclass=A
 
         # Note: This may not be worth it since this is a rare overflow case.
         try:
-            if math.isinf(self._ctype(max(value)).value) or math.isinf(
-                self._ctype(min(value)).value
-            ):
+            # check every element: max()/min() depend on the order when a NaN is present
+            if any(math.isinf(self._ctype(v).value) for v in value):
                 raise ValueError(
                     f"{value} contains value(s) that can not be represented as a {type(self).__name__}"
                 )
